@@ -164,6 +164,27 @@ pub fn run(args: &Args) {
                 sopt(r)
             })
             .collect();
+        // adaptors that delegate to nth/skip/step_by on an iterator that has already advanced must walk the
+        // same sequence as repeated next()
+        let mut adaptor_bad: Option<String> = None;
+        {
+            let reference: Vec<u128> = root.iter().map(|n| node_uuid(&n)).collect();
+            for k in 1..=3usize {
+                let got: Vec<u128> = root.iter().step_by(k).map(|n| node_uuid(&n)).collect();
+                let want: Vec<u128> = reference.iter().cloned().step_by(k).collect();
+                if got != want { adaptor_bad = Some(format!("iter().step_by({}) yields {} nodes, the plain walk {} of {}", k, got.len(), want.len(), reference.len())); }
+            }
+            for taken in 0..reference.len().min(4) {
+                let mut it = root.iter();
+                for _ in 0..taken { it.next(); }
+                let n = rng.below(3) as usize;
+                let got_nth = it.nth(n).map(|x| node_uuid(&x));
+                let rest: Vec<u128> = it.map(|x| node_uuid(&x)).collect();
+                let want_nth = reference.get(taken + n).cloned();
+                let want_rest: Vec<u128> = reference.iter().cloned().skip(taken + n + 1).collect();
+                if got_nth != want_nth || rest != want_rest { adaptor_bad = Some(format!("after {} next() calls, nth({}) and the rest of the walk differ from the plain walk", taken, n)); }
+            }
+        }
         let es_mut: Vec<String> = root.entries_mut().iter().map(|e| e.uuid.as_u128().to_string()).collect();
         let gs_mut: Vec<String> = root.groups_mut().iter().map(|g| g.uuid.as_u128().to_string()).collect();
         let getmuts: Vec<String> = paths
@@ -191,6 +212,7 @@ pub fn run(args: &Args) {
         o.tags.push(format!("nodes:{}", match it.len() { 0..=1 => "1", 2..=5 => "2-5", 6..=20 => "6-20", 21..=100 => "21-100", _ => ">100" }));
         o.tags.push(format!("depth:{}", depth));
         o.tags.push(format!("lookup-hits:{}", match hits { 0 => "0", 1..=5 => "1-5", _ => ">5" }));
+        if let Some(w) = adaptor_bad { o.violation = Some(w); }
         if es != es_mut || gs != gs_mut {
             o.violation = Some("entries_mut/groups_mut list differs from entries/groups".into());
         }
